@@ -207,6 +207,10 @@ def write_lammps(dirpath, L0, species, frac):
     # a second data file for the same coordinates (another cell): same coords_file, different data_file
     s2 = Structure(Lattice(np.asarray(L0) * 1.25), species, frac[0])
     LammpsData.from_structure(s2, atom_style='atomic').write_file(os.path.join(dirpath, 'data2.txt'))
+    # ... and one with the *same file name* in another directory
+    os.makedirs(os.path.join(dirpath, 'alt'), exist_ok=True)
+    s3 = Structure(Lattice(np.asarray(L0) * 1.5), species, frac[0])
+    LammpsData.from_structure(s3, atom_style='atomic').write_file(os.path.join(dirpath, 'alt', 'data.txt'))
 
 
 def write_gromacs(dirpath, box, species, frac, dt=2.0):
@@ -237,6 +241,9 @@ def write_gromacs(dirpath, box, species, frac, dt=2.0):
         names2.append(f'{t}{counts2[t]}')
     u.atoms.names = names2
     u.atoms.write(os.path.join(dirpath, 'top2.gro'))
+    os.makedirs(os.path.join(dirpath, 'alt'), exist_ok=True)
+    u.atoms.names = list(reversed(names2))
+    u.atoms.write(os.path.join(dirpath, 'alt', 'top.gro'))  # same file name, other directory, other content
     u.atoms.names = names
     with mda.Writer(os.path.join(dirpath, 'traj.xtc'), na) as w:
         for i in range(nf):
@@ -299,10 +306,10 @@ ARGSETS = {
 # the option space the seeded sequences draw from: (name, values); the first value is the default (omitted from the call)
 OPTION_SPACE = {
     'lammps': [('temperature', [300, 700, 1000.5]), ('time_step', [1.0, 2.5]), ('type_mapping', [None, 'A', 'B']), ('constant_lattice', [None, True, False]),
-               ('atom_style', [None, 'atomic', 'charge']), ('_data', [None, 'data2.txt']), ('coords_format', [None, 'xyz', 'XYZ'])],
+               ('atom_style', [None, 'atomic', 'charge']), ('_data', [None, 'data2.txt', 'alt/data.txt']), ('coords_format', [None, 'xyz', 'XYZ'])],
     'vasp': [('constant_lattice', [None, True, False]), ('ionic_step_skip', [None, 2, 3]), ('ionic_step_offset', [None, 0, 1]), ('parse_dos', [None, False]),
              ('exception_on_bad_xml', [None, True])],
-    'gromacs': [('temperature', [300, 450]), ('constant_lattice', [None, True, False]), ('_top', [None, 'top2.gro'])],
+    'gromacs': [('temperature', [300, 450]), ('constant_lattice', [None, True, False]), ('_top', [None, 'top2.gro', 'alt/top.gro'])],
 }
 REQUIRED = {'lammps': ('temperature', 'time_step'), 'vasp': (), 'gromacs': ('temperature',)}
 
